@@ -30,7 +30,7 @@ struct RecvTape {
 }
 
 fn recv_tape(seed: u64, stream: &str) -> RecvTape {
-    let mut r = rng(seed, stream);
+    let mut r = tape_rng(seed, stream);
     let bits: [u8; 32] = r.gen();
     let tas: Vec<Scalar> = (0..N).map(|_| Scalar::random(&mut r)).collect();
     let ros: Vec<ProjectivePoint> = (0..N).map(|_| ProjectivePoint::random(&mut r)).collect();
@@ -51,7 +51,7 @@ fn dirty_out(buf: &mut [u8], sid: &[u8]) {
 
 /// the real receiver, round 1 (re-created whenever needed: `process` consumes it)
 fn real_recv_new(seed: u64, tape: &RecvTape, sid: &[u8]) -> (EndemicOTReceiver, Vec<u8>) {
-    let mut r = rng(seed, &tape.stream);
+    let mut r = tape_rng(seed, &tape.stream);
     let mut msg1 = EndemicOTMsg1::default();
     dirty_out(bytemuck::bytes_of_mut(&mut msg1), sid);
     let recv = EndemicOTReceiver::new(sid, &mut msg1, &mut r);
@@ -60,8 +60,9 @@ fn real_recv_new(seed: u64, tape: &RecvTape, sid: &[u8]) -> (EndemicOTReceiver, 
 
 /// sender tape: per instance t_b_0 then t_b_1
 fn send_tape(seed: u64, stream: &str) -> Vec<Scalar> {
-    let mut r = rng(seed, stream);
-    (0..2 * N).map(|_| Scalar::random(&mut r)).collect()
+    let mut r = tape_rng(seed, stream);
+    // the sender draws NonZeroScalar::random (a zero candidate is rejected and redrawn)
+    (0..2 * N).map(|_| *k256::NonZeroScalar::random(&mut r)).collect()
 }
 
 struct SendRes {
@@ -71,7 +72,7 @@ struct SendRes {
 }
 
 fn real_send(seed: u64, stream: &str, sid: &[u8], msg1: &[u8]) -> SendRes {
-    let mut r = rng(seed, stream);
+    let mut r = tape_rng(seed, stream);
     let mut m1 = EndemicOTMsg1::default();
     bytemuck::bytes_of_mut(&mut m1).copy_from_slice(msg1);
     let mut m2 = EndemicOTMsg2::default();
@@ -356,9 +357,13 @@ pub fn run(kv: &Args) -> i32 {
                 s
             }
         };
-        let t_r = recv_tape(seed, &format!("c05-recv-{case}"));
+        // degenerate random tapes: case 1 (mod 5): the receiver's choice bits are all zero and its first ephemeral scalars
+        // are 0 (its first points are the hash-to-curve points themselves); case 2: all-one choice bits; case 3: the
+        // sender's first ephemeral scalars are 0 (it sends the point at infinity, encoded as 33 zero bytes)
+        let (rt, st) = match case % 5 { 1 => ("#zero96", ""), 2 => ("#ones32", ""), 3 => ("", "#zero64"), _ => ("", "") };
+        let t_r = recv_tape(seed, &format!("c05-recv-{case}{rt}"));
         let t_r2 = recv_tape(seed, &format!("c05-recv2-{case}"));
-        let s_s = format!("c05-send-{case}");
+        let s_s = format!("c05-send-{case}{st}");
         let s_s2 = format!("c05-send2-{case}");
         let input = format!("seed={seed} case={case} sid={} sid2={} (tapes: util::rng(seed, c05-recv-{case} / c05-recv2-{case} / c05-send-{case} / c05-send2-{case}))",
             hx(&sid), hx(&sid2));
